@@ -1369,6 +1369,12 @@ struct Exec {
         }
         if (e.trace && !ops.caps.trace)
             return invalid("update: trace on a policy without trace");
+        if (s.handler_mode == HM_CALL_ERROR &&
+            (e.hash_budget || wf.status == WF_MISSING))
+            // the shipped error handler is installed (only call_error is
+            // ours): it returns from a hash or unknown-class report and the
+            // library then aborts, by design
+            return invalid("update: fault with the shipped error handler");
         if (e.fork) {
             // abort probe: the handler returns; update must abort, after one
             // report naming a missing class, without installing anything
